@@ -4,7 +4,7 @@ from engine import atoms
 from engine.rulelib import fnview
 from engine.cfg import render, strip_ref, peel, subexprs
 
-CRATES = ["lightning_signer"]
+CRATES = ["lightning_signer", "vls_protocol_signer"]
 LS = "lightning_signer::"
 SVT = LS + "policy::simple_validator::SimpleValidator"
 VAL = LS + "policy::validator::Validator"
@@ -24,7 +24,10 @@ CLAIM = {
             "when one is set and value > 0, and a positive value always has a script; outside_epsilon_range computes "
             "|a-b| > epsilon; (R7.3) the raw path accepts at most two outputs, succeeds only through Ok of one of the "
             "two validate_mutual_close_tx attempts, builds the closing tx from the attempt that succeeded and refuses "
-            "when the recomposed transaction differs from the supplied one. channel_closed + persist: C02 R2.2. Does "
+            "when the recomposed transaction differs from the supplied one; (R7.5) the upfront shutdown script the "
+            "validator compares with is the one the node fixed: the protocol handler fills ChannelSetup."
+            "holder_shutdown_script - value and presence - from the request's local_shutdown_script only (and the "
+            "counterparty's from remote_shutdown_script only). channel_closed + persist: C02 R2.2. Does "
             "not decide the numeric epsilon/fee arithmetic at extremes.",
     "note": "non-permissive policy; Wallet::can_spend / allowlist_contains semantics by name (C08 R8.4 checks can_spend)",
     "technique": "static analysis: must-pass-through on boolean/Result edges + guard scenarios + provenance (argument roles)",
@@ -38,6 +41,7 @@ def run(ctx):
     r72(ctx)
     r73(ctx)
     r74(ctx)
+    r75(ctx)
 
 
 def r71(ctx):
@@ -299,3 +303,42 @@ def r74(ctx):
                      "Ok path, persist, and set the flag before the persist call (same obligations as C02 R2.2 for the closers)")
     from rules import C02 as _c02
     _c02.closed_flag_rule(ctx, "R7.4", list(_c02.CLOSERS))
+
+
+# ------------------------------------------------------------------ R7.5
+SETUP_ROLES = {"holder_shutdown_script": ("local_shutdown_script", "remote_shutdown_script"),
+               "counterparty_shutdown_script": ("remote_shutdown_script", "local_shutdown_script")}
+
+
+def r75(ctx):
+    ctx.rule("R7.5", "the handler stores the request's own (local) upfront shutdown script as the holder's: value and "
+                     "presence of ChannelSetup.holder_shutdown_script come from local_shutdown_script only")
+    p = ctx.prog
+    b = p.fn("<vls_protocol_signer::handler::ChannelHandler as vls_protocol_signer::handler::Handler>::do_handle")
+    ctx.touch(b)
+    fv = fnview(ctx, b)
+    sites = 0
+    for bi in sorted(fv.live_blocks()):
+        for st in b.stmts(bi):
+            if not (st.kind == "a" and st.rv.op == "agg" and isinstance(st.rv.a, tuple) and st.rv.a[0] == "adt"
+                    and st.rv.a[1].name.endswith("channel::ChannelSetup")):
+                continue
+            sites += 1
+            for f, o in zip(st.rv.a[3], st.rv.ops):
+                if f not in SETUP_ROLES:
+                    continue
+                want, other = SETUP_ROLES[f]
+                root, defs, sw = R.conditional_defs(fv, o)
+                vals = [render(e) for _, ops in defs for e in ops]
+                conds = [render(e) for _, e in sw]
+                some = [v for v in vals if want in v]
+                ok_val = bool(some) and not any(other in v for v in vals)
+                ctx.ob("R7.5", ok_val, f"{b.name}/ChannelSetup.{f}/value",
+                       f"ChannelSetup.{f} is built from {[v[:80] for v in vals]} (expected the request's {want} only)",
+                       where=f"{b.file}:{st.line}", sample=f"{f} <- {want}")
+                ok_c = all(want in c and other not in c for c in conds) and (bool(conds) or len(defs) == 1)
+                ctx.ob("R7.5", ok_c, f"{b.name}/ChannelSetup.{f}/presence",
+                       f"whether ChannelSetup.{f} is set is decided by {[c[:100] for c in conds]} (expected a test of the "
+                       f"request's {want} only): a script the node fixed can be dropped, or an absent one invented",
+                       where=f"{b.file}:{st.line}", sample=f"presence of {f} <- {want}")
+    ctx.floor("R7.5", "ChannelSetup constructions in the channel handler", sites, 1)
